@@ -4,6 +4,8 @@ import base64
 import binascii
 import json
 import os
+# the SDK keyring library launches a dbus-daemon per process when no session bus is configured; thousands accumulate
+os.environ.setdefault("DBUS_SESSION_BUS_ADDRESS", "disabled:")
 import subprocess
 import sys
 
